@@ -256,6 +256,7 @@ type liDump struct {
 	last     *litypes.Epoch
 	nGauges  int
 	zeroLiq  int
+	allZero  bool // the last epoch has gauges and every count is zero
 	epochs   [][3]int64
 }
 
@@ -292,6 +293,12 @@ func (w *world) dumpLI(ctx sdk.Context) liDump {
 		last := es[len(es)-1]
 		d.last = &last
 		d.nGauges = len(last.Gauges)
+		d.allZero = len(last.Gauges) > 0
+		for _, g := range last.Gauges {
+			if !g.Count.IsZero() {
+				d.allZero = false
+			}
+		}
 		seen := map[uint64]bool{}
 		for _, g := range last.Gauges {
 			if seen[g.PoolId] {
